@@ -101,13 +101,12 @@ class Blockwise(ArrayExpr):
         times. They must take the same decisions, so the settings are captured
         once per node and applied to both."""
         return {
-            "array.unify-chunks-policy": config.get("array.unify-chunks-policy", "auto"),
-            "array.unify-chunks-limit": config.get("array.unify-chunks-limit", None),
+            "policy": config.get("array.unify-chunks-policy", "auto"),
+            "limit": config.get("array.unify-chunks-limit", None),
         }
 
     def _unified_args(self):
-        with config.set(self._unify_config):
-            return unify_chunks_expr(*self.args)
+        return unify_chunks_expr(*self.args, **self._unify_config)
 
     @cached_property
     def chunks(self):
